@@ -110,7 +110,7 @@ pub fn sinks<E: Entry>(g: &mut Gen, st: &mut Stats) -> CaseResult {
             else { match &r { Ok(()) => fail!("succeeded-without-room", "Writer<io::Write> reported success for {} bytes with limit {}", n, cap), Err(x) => ensure!(x.is_write(), "error-class", "io overflow reported as non-write error") } }
         }
         st.class(if n <= cap { "fits" } else if cap == 0 { "capacity-0" } else { "overflows" });
-        if n >= 2 { st.nontrivial(hash_of(&(E::NAME, cap, n, &e[.. n.min(24)]))) }
+        if n >= 2 { st.nontrivial(crate::registry::stable_hash::<E>(&e) ^ (cap as u64).wrapping_mul(0x9e3779b97f4a7c15)) }
         st.sample(hash_of(&(cap, &e)), || format!("{}: {} bytes into capacity {}", E::NAME, n, cap));
         Ok(())
     })
@@ -180,10 +180,10 @@ fn raw_histories(g: &mut Gen, st: &mut Stats) -> CaseResult {
 pub fn subs() -> Vec<Sub> {
     vec![
         Sub { prop: "C13", name: "values", rule: "value of a registry type x capacity in {len, len-1, len+1, 0, uniform 0..=len+1} x six sink kinds (slice, three cursors with canary-guarded backing, Vec, io::Write adapter with short writes): same bytes, Ok iff fits, write error otherwise, accepted prefix, cursor position, guards intact; distinct by (type, capacity, bytes)",
-              kind: Kind::Random { quick: 200_000, thorough: 8_000_000, tape: 1024, f: values } },
+              kind: Kind::Random { quick: 1_000_000, thorough: 8_000_000, tape: 1024, f: values } },
         Sub { prop: "C13", name: "capacity-sweep", rule: "every capacity 0..=len+1 for a multi-field tuple value (encodings <= 80 bytes), slice and cursor sinks",
-              kind: Kind::Random { quick: 6_000, thorough: 300_000, tape: 256, f: capacity_sweep } },
+              kind: Kind::Random { quick: 30_000, thorough: 300_000, tape: 256, f: capacity_sweep } },
         Sub { prop: "C13", name: "raw-histories", rule: "1-10 raw write_all calls with lengths 0..=cap+1 on each cursor kind and the plain slice vs a (pos, all-or-nothing) model; non-trivial = history mixes accepted and refused writes",
-              kind: Kind::Random { quick: 200_000, thorough: 5_000_000, tape: 1024, f: raw_histories } },
+              kind: Kind::Random { quick: 1_000_000, thorough: 5_000_000, tape: 1024, f: raw_histories } },
     ]
 }
